@@ -188,6 +188,62 @@ def _relations_one(M, rec, rng, desc, vals, pars, ek, symvals):
         cmp_all(rec, "R5 mainstream origin with infinite limit vs limit >= first-segment speed", ek, desc, a, b, vi, pars)
 
 
+def multistep_neutral(M, rec, rng, g, n_runs, steps=12):
+    """R1 over a history: a speed-limited network with infinite limits (the SAME limit arrays passed
+    at every step, as a simulation loop does) vs the plain network, both fed back their own next
+    states; the trajectories must coincide bitwise, and the limit arrays must stay infinite."""
+    NE, CE = drive.engines(M)
+    for _ in range(n_runs):
+        _, desc = g.network(rng.choice(("chain", "ramp", "random", "merge", "bifurcation")), force=("vsl",))
+        plain = copy.deepcopy(desc)
+        for l in plain["links"]:
+            l["vsl"], l["alpha"] = None, None
+        pars = g.pars()
+        kw = drive.step_pars(pars)
+        _, vals = g.values(desc, "interior", allow_inf=False)
+        if R.is_singular(desc, vals):
+            continue
+        bc, bp = D.build(M, desc), D.build(M, plain)
+        limits = {l["id"]: np.full(len(l["vsl"]), np.inf) for l in desc["links"]}
+        vc = {k: {n: (list(x) if isinstance(x, list) else x) for n, x in d.items()} for k, d in vals.items()}
+        vp = {k: {n: (list(x) if isinstance(x, list) else x) for n, x in d.items() if n != "v_ctrl" or k not in limits}
+              for k, d in vals.items()}
+        rec.count("multistep_runs")
+        rec.seen("relations", ("R1-infinite-limit-multistep", "numpy"))
+        rec.seen("multistep_alpha_zero", any(l["alpha"] == 0.0 for l in desc["links"]))
+        for k in range(steps):
+            icc = drive.np_init(bc, vc, "vec1")
+            for lid, arr in limits.items():
+                icc[bc.links[lid]]["v_ctrl"] = arr
+            try:
+                bc.net.step(init_conditions=icc, engine=NE(), positive_next_speed=True, **kw)
+                bp.net.step(init_conditions=drive.np_init(bp, vp, "vec1"), engine=NE(), positive_next_speed=True, **kw)
+            except Exception as e:
+                rec.violation(f"{PROP}:R1-multistep:numpy: stepping raised {type(e).__name__}", {"desc": desc, "exception": repr(e)[:300]})
+                break
+            a, b = drive.read_next(bc), drive.read_next(bp)
+            rec.count("multistep_steps")
+            if not all(np.isinf(arr).all() for arr in limits.values()):
+                rec.violation(f"{PROP}:R1-multistep:numpy: infinite limits supplied by the caller became finite",
+                              {"desc": desc, "step": k, "limits": {x: y.tolist() for x, y in limits.items()}})
+                break
+            if not cmp_all(rec, f"R1 infinite limit vs plain link over a history (step>={min(k, 1)})", "numpy", desc, a, b, vc, pars):
+                break
+            bad = False
+            for eid, d in a.items():
+                for n_, v in d.items():
+                    xs = v if isinstance(v, list) else [v]
+                    if any((not math.isfinite(x)) or abs(x) > 1e6 for x in xs):
+                        bad = True
+                    vc[eid][n_] = list(v) if isinstance(v, list) else v
+                    vp[eid][n_] = list(v) if isinstance(v, list) else v
+            for eid, d in b.items():
+                for n_, v in d.items():
+                    vp[eid][n_] = list(v) if isinstance(v, list) else v
+            if bad:
+                break
+
+
 def dec_cveq(kind, args, kwargs, res, rec):
     names = ("rho", "v_ctrl", "vsl", "alpha", "v_free", "rho_crit", "a")
     a = dict(zip(names, args))
@@ -246,6 +302,7 @@ def run(M, rec, tier, seed, k, n):
     try:
         direct_cveq(M, rec, rng, 3000 if tier == "quick" else 40000)
         relations(M, rec, rng, 160 if tier == "quick" else 1200, symvals)
+        multistep_neutral(M, rec, rng, G.NetGen(rng), 40 if tier == "quick" else 300)
     finally:
         pm.uninstall()
     rec.sample({"relations": sorted(rec.cover.get("relations", []))})
@@ -259,10 +316,11 @@ def finish(M, rec, write=True):
             for ek in ("numpy", "SX", "MX"):
                 rec.gate(repr((r_, ek)) in rel, f"relation {r_} never evaluated on {ek}")
         rec.gate("binding" in rec.cover.get("limit_effect", set()), "no binding speed limit observed")
+        rec.gate("True" in rec.cover.get("multistep_alpha_zero", set()), "no multi-step run with alpha = 0")
         rec.gate(rec.counters.get("controlled_Veq_postconditions", 0) > 0, "controlled_Veq never observed")
         rec.gate(rec.counters.get("monitor_internal_errors", 0) == 0, "monitor internal errors")
     return rec.finish(
-        ["pair_scalars_compared", "controlled_Veq_postconditions", "limited_segments_compared"],
+        ["pair_scalars_compared", "controlled_Veq_postconditions", "limited_segments_compared", "multistep_steps"],
         ["relations", "limit_effect"],
         rule="paired networks built from one description (controlled element vs plain/neutral element) stepped from identical "
         "states with NumPy (bitwise comparison for R1/R2/R5), SX and MX (1e-12); relations R1..R5 of the module docstring; in-situ "
